@@ -223,7 +223,8 @@ fn main() {
     };
     let nn = near.len() as u64;
     rep.set("near_plane_lattice_points", nn);
-    for sc in [1.0f32, 0.000244140625, 9.5367431640625e-7] {
+    // (scales 1, 2^-12, 2^-20, 2^-26, 2^-80 and 2^30: clip space has no unit)
+    for sc in [1.0f32, 0.000244140625, 9.5367431640625e-7, 1.4901161e-8, 8.271806e-25, 1073741824.0] {
         rep.merge(par_range(&cfg, nn * nn * nn, |i, r| { let t = [near[(i % nn) as usize], near[(i / nn % nn) as usize], near[(i / nn / nn) as usize]].map(|p| p.map(|c| c * sc)); check_single(&t, r); r.h("scaled-near-plane-family"); }));
     }
     // batch pool: first triangle of each (class, output-count, outcode signature) class, 64 triangles
